@@ -141,6 +141,51 @@ func heapBytes() uint64 {
 	return s[0].Value.Uint64()
 }
 
+// sizeWithin walks a value and charges its size to *budget; false when the budget is exhausted.
+func sizeWithin(o tengo.Object, budget *int64, depth int) bool {
+	if depth > 64 {
+		return true
+	}
+	*budget -= 16
+	switch v := o.(type) {
+	case *tengo.String:
+		*budget -= int64(len(v.Value))
+	case *tengo.Bytes:
+		*budget -= int64(len(v.Value))
+	case *tengo.Array:
+		for _, e := range v.Value {
+			if *budget < 0 || !sizeWithin(e, budget, depth+1) {
+				return false
+			}
+		}
+	case *tengo.ImmutableArray:
+		for _, e := range v.Value {
+			if *budget < 0 || !sizeWithin(e, budget, depth+1) {
+				return false
+			}
+		}
+	case *tengo.Map:
+		for k, e := range v.Value {
+			*budget -= int64(len(k))
+			if *budget < 0 || !sizeWithin(e, budget, depth+1) {
+				return false
+			}
+		}
+	case *tengo.ImmutableMap:
+		for k, e := range v.Value {
+			*budget -= int64(len(k))
+			if *budget < 0 || !sizeWithin(e, budget, depth+1) {
+				return false
+			}
+		}
+	case *tengo.Error:
+		if v.Value != nil {
+			return sizeWithin(v.Value, budget, depth+1)
+		}
+	}
+	return *budget >= 0
+}
+
 // RunOpts configures RunBytecode.
 type RunOpts struct {
 	MaxAllocs int64
@@ -230,6 +275,20 @@ wait:
 		debug.FreeOSMemory()
 		out.Globals = map[string]string{}
 		return out
+	}
+	// values too large to canonicalise (a string doubled thirty times): the run is treated like a timeout
+	budget := int64(64 << 20)
+	for _, g := range globals {
+		if g != nil && !sizeWithin(g, &budget, 0) {
+			out.TimedOut, out.MemGuard = true, true
+			MemGuardHits++
+			for i := range globals {
+				globals[i] = nil
+			}
+			debug.FreeOSMemory()
+			out.Globals = map[string]string{}
+			return out
+		}
 	}
 	last := -1
 	for i, g := range globals {
